@@ -1,27 +1,34 @@
-(** C06 - arbitrarily long digit strings are still rounded correctly.
-    PROVED (closed by [exact]):
-     - stage 1 (proofs/ParseFacts.v): keeps exactly the first 19 significant digits w, reports
-       truncation, and the exact value lies in [w, w+1) * 10^(X+k), exponent = saturation of the exact
-       one - every valid input of any length (< 2^31 - 2 digits), both build modes;
-     - the MAX_DIGITS argument (proofs/TruncFacts.v, TruncFacts2.v): every rounding boundary of the
-       format has at most MAX_DIGITS significant decimal digits ([boundary_digits]; the side condition
-       [trunc_ok] is computed on the REGENERATED constant: for f64 it holds iff MAX_DIGITS >= 768, for
-       f32 iff >= 113 - see [digits_ok] examples in the proof file), no boundary lies strictly inside
-       a cell (N0*10^k, (N0+1)*10^k) of MAX_DIGITS-digit numbers, RN is constant between boundaries,
-       hence keeping MAX_DIGITS digits plus ONE sticky digit `1` when a later digit is non-zero never
-       changes the correctly rounded result ([truncation_preserves_rounding]); and in the shape the
-       property states it: a non-zero digit at any depth breaks an exact tie upward
-       ([far_digit_breaks_tie]), a tail of 9s just below a tie rounds down
-       ([nines_below_tie_round_down]), trailing zeros are irrelevant ([trailing_zeros_irrelevant]).
-    That parse_mantissa implements exactly this truncation is proofs/SlowFacts1.v (in progress) and
-    the correspondence harness (deciding digit at depths 20 .. 10^6, around MAX_DIGITS-2 .. +2). *)
+(** C06 - arbitrarily long digit strings are still rounded correctly.  PROVED END TO END: [parse_float_correct]
+    holds for every valid input of up to 2^28 digits - digits beyond the 19th and beyond the MAX_DIGITS-th
+    change the result exactly when they move the exact value across a rounding boundary, because the
+    result is RN of the EXACT value.  The ingredients: stage 1 keeps 19 digits + a truncation flag
+    ([parse_number_spec]); [parse_mantissa_spec] keeps MAX_DIGITS digits + one sticky digit;
+    [truncation_preserves_rounding] (every rounding boundary has at most MAX_DIGITS significant digits -
+    [trunc_ok] is computed on the regenerated constant and holds for f64 iff MAX_DIGITS >= 768); and in
+    the shape the property states: [far_digit_breaks_tie], [nines_below_tie_round_down],
+    [trailing_zeros_irrelevant].
+    Domain and premise as in props/C01.v.  Closed by [exact]. *)
 
-From Coq Require Import ZArith QArith List Bool.
-From ML Require Import base.RustSem model.Fmt model.Number model.Parse spec.Decimal spec.Round spec.RoundFacts spec.RneZ
-  gen.Consts proofs.ParseFacts proofs.TruncFacts proofs.TruncFacts2.
+From Coq Require Import ZArith QArith Qabs List Bool Reals Qreals.
+From Coq Require Import Floats.SpecFloat.
+From Flocq Require Import Core.Core.
+From ML Require Import base.RustSem model.Fmt model.Num model.Number model.Parse model.Lemire model.Bellerophon model.Vec model.Bigint model.Slow model.Top
+  spec.Decimal spec.Round spec.RoundFacts spec.DigitsSuffice gen.Consts gen.Tables gen.BTables gen.PowDump
+  proofs.ParseFacts proofs.FastPathFacts proofs.EndToEnd proofs.EndToEnd2 proofs.EndToEnd3 proofs.EndToEnd4 proofs.EndToEnd5 proofs.EndToEnd6 proofs.EndToEnd7
+  proofs.LemireFacts6 proofs.Glue proofs.TruncFacts proofs.TruncFacts2 proofs.SlowFacts1.
 Import ListNotations.
 
 Open Scope Z_scope.
+
+Theorem C06_parse_float_correct :
+  forall (c : config) (f : format) (b : build) (i fr : list Z) (e : Z),
+         In c ALL_CONFIGS ->
+         f = F32 \/ f = F64 ->
+         valid_inputb i fr e = true ->
+         zlen i + zlen fr <= 2 ^ 28 ->
+         (compact c = false -> no_deep_fallback_at f b (parse_spec i fr e)) ->
+         PF c f b i fr e = Ok (RN f (dec_value i fr e)).
+Proof. exact parse_float_correct. Qed.
 
 Theorem C06_parse_number_spec :
   forall (b : build) (i f : list Z) (e : Z),
@@ -62,6 +69,29 @@ Theorem C06_parse_number_value_bracket :
             (inject_Z (nmant n) * pow10Q (X + k) <= dec_value i f e < inject_Z (nmant n + 1) * pow10Q (X + k))%Q).
 Proof. exact parse_number_value_bracket. Qed.
 
+Theorem C06_parse_mantissa_spec :
+  forall (c : config) (T : tables) (L : limits) (b : build) (maxd : Z) (i fr : list Z),
+         pm_tables_ok c T = true ->
+         10 ^ (maxd + 1) <= B64 ^ BIGINT_LIMBS L ->
+         0 < maxd ->
+         forallb digitb i = true ->
+         forallb digitb fr = true ->
+         (forall (ch : Z) (r : list Z), i = ch :: r -> ch <> 48) ->
+         let s := strip0 (i ++ fr) in
+         let D := zlen s in
+         let k := Z.to_nat maxd in
+         exists (v : vec) (cnt : Z),
+           parse_mantissa c T L b i fr maxd = Ok (v, cnt) /\
+           vgood c L v /\
+           (D <= maxd -> LimbVal.lval (vl v) = digits_to_Z s /\ cnt = D) /\
+           (maxd < D ->
+            if all0 (skipn k s)
+            then LimbVal.lval (vl v) = digits_to_Z (firstn k s) /\ cnt = maxd
+            else LimbVal.lval (vl v) = digits_to_Z (firstn k s) * 10 + 1 /\ cnt = maxd + 1) /\
+           (s <> [] -> 0 < LimbVal.lval (vl v)) /\
+           0 <= LimbVal.lval (vl v) < 10 ^ (maxd + 1) /\ 0 <= cnt <= maxd + 1.
+Proof. exact parse_mantissa_spec. Qed.
+
 Theorem C06_trunc_ok_F32 :
   trunc_ok F32 = true.
 Proof. exact trunc_ok_F32. Qed.
@@ -93,16 +123,6 @@ Theorem C06_RN_const_between :
          RN f v1 = RN f v2.
 Proof. exact RN_const_between. Qed.
 
-Theorem C06_RN_cell_const :
-  forall f : format,
-         sfmt_ok f = true ->
-         trunc_ok f = true ->
-         forall (a k : Z) (v1 v2 : Q),
-         10 ^ (MAX_DIGITS f - 1) <= a ->
-         (decQ a k < v1)%Q ->
-         (v1 < decQ (a + 1) k)%Q -> (decQ a k < v2)%Q -> (v2 < decQ (a + 1) k)%Q -> RN f v1 = RN f v2.
-Proof. exact RN_cell_const. Qed.
-
 Theorem C06_truncation_preserves_rounding :
   forall f : format,
          sfmt_ok f = true ->
@@ -116,43 +136,11 @@ Theorem C06_truncation_preserves_rounding :
          let rest := skipn n s in
          let k := X + zlen s - MAX_DIGITS f in
          10 ^ (MAX_DIGITS f - 1) <= N0 < 10 ^ MAX_DIGITS f /\
-         (all0 rest = false -> RN f (decQ (digits_to_Z s) X) = RN f (decQ (N0 * 10 + 1) (k - 1))) /\
-         (all0 rest = true ->
+         (TruncFacts.all0 rest = false -> RN f (decQ (digits_to_Z s) X) = RN f (decQ (N0 * 10 + 1) (k - 1))) /\
+         (TruncFacts.all0 rest = true ->
           digits_to_Z s = N0 * 10 ^ (zlen s - MAX_DIGITS f) /\
           decQ (digits_to_Z s) X == decQ N0 k /\ RN f (decQ (digits_to_Z s) X) = RN f (decQ N0 k)).
 Proof. exact truncation_preserves_rounding. Qed.
-
-Theorem C06_truncation_preserves_rounding_F64 :
-  forall (s : list Z) (X : Z),
-         forallb digitb s = true ->
-         hd 48 s <> 48 ->
-         MAX_DIGITS F64 < zlen s ->
-         let n := Z.to_nat (MAX_DIGITS F64) in
-         let N0 := digits_to_Z (firstn n s) in
-         let rest := skipn n s in
-         let k := X + zlen s - MAX_DIGITS F64 in
-         10 ^ (MAX_DIGITS F64 - 1) <= N0 < 10 ^ MAX_DIGITS F64 /\
-         (all0 rest = false -> RN F64 (decQ (digits_to_Z s) X) = RN F64 (decQ (N0 * 10 + 1) (k - 1))) /\
-         (all0 rest = true ->
-          digits_to_Z s = N0 * 10 ^ (zlen s - MAX_DIGITS F64) /\
-          decQ (digits_to_Z s) X == decQ N0 k /\ RN F64 (decQ (digits_to_Z s) X) = RN F64 (decQ N0 k)).
-Proof. exact truncation_preserves_rounding_F64. Qed.
-
-Theorem C06_truncation_preserves_rounding_F32 :
-  forall (s : list Z) (X : Z),
-         forallb digitb s = true ->
-         hd 48 s <> 48 ->
-         MAX_DIGITS F32 < zlen s ->
-         let n := Z.to_nat (MAX_DIGITS F32) in
-         let N0 := digits_to_Z (firstn n s) in
-         let rest := skipn n s in
-         let k := X + zlen s - MAX_DIGITS F32 in
-         10 ^ (MAX_DIGITS F32 - 1) <= N0 < 10 ^ MAX_DIGITS F32 /\
-         (all0 rest = false -> RN F32 (decQ (digits_to_Z s) X) = RN F32 (decQ (N0 * 10 + 1) (k - 1))) /\
-         (all0 rest = true ->
-          digits_to_Z s = N0 * 10 ^ (zlen s - MAX_DIGITS F32) /\
-          decQ (digits_to_Z s) X == decQ N0 k /\ RN F32 (decQ (digits_to_Z s) X) = RN F32 (decQ N0 k)).
-Proof. exact truncation_preserves_rounding_F32. Qed.
 
 Theorem C06_far_digit_breaks_tie :
   forall f : format,
@@ -169,9 +157,9 @@ Theorem C06_far_digit_breaks_tie :
          let rest := skipn n s in
          let k := X + zlen s - MAX_DIGITS f in
          decQ N0 k == bndQ M E ->
-         all0 rest = false ->
-         RN f (decQ (digits_to_Z s) X) = RoundFacts.encode f M E + 1 /\
-         RN f (decQ (N0 * 10 + 1) (k - 1)) = RoundFacts.encode f M E + 1.
+         TruncFacts.all0 rest = false ->
+         RN f (decQ (digits_to_Z s) X) = encode f M E + 1 /\
+         RN f (decQ (N0 * 10 + 1) (k - 1)) = encode f M E + 1.
 Proof. exact far_digit_breaks_tie. Qed.
 
 Theorem C06_nines_below_tie_round_down :
@@ -189,9 +177,8 @@ Theorem C06_nines_below_tie_round_down :
          let rest := skipn n s in
          let k := X + zlen s - MAX_DIGITS f in
          decQ (N0 + 1) k == bndQ M E ->
-         all0 rest = false ->
-         RN f (decQ (digits_to_Z s) X) = RoundFacts.encode f M E /\
-         RN f (decQ (N0 * 10 + 1) (k - 1)) = RoundFacts.encode f M E.
+         TruncFacts.all0 rest = false ->
+         RN f (decQ (digits_to_Z s) X) = encode f M E /\ RN f (decQ (N0 * 10 + 1) (k - 1)) = encode f M E.
 Proof. exact nines_below_tie_round_down. Qed.
 
 Theorem C06_trailing_zeros_irrelevant :
@@ -204,17 +191,16 @@ Theorem C06_trailing_zeros_irrelevant :
 Proof. exact trailing_zeros_irrelevant. Qed.
 
 
+Print Assumptions C06_parse_float_correct.
 Print Assumptions C06_parse_number_spec.
 Print Assumptions C06_parse_number_value_bracket.
+Print Assumptions C06_parse_mantissa_spec.
 Print Assumptions C06_trunc_ok_F32.
 Print Assumptions C06_trunc_ok_F64.
 Print Assumptions C06_boundary_digits.
 Print Assumptions C06_no_boundary_in_cell.
 Print Assumptions C06_RN_const_between.
-Print Assumptions C06_RN_cell_const.
 Print Assumptions C06_truncation_preserves_rounding.
-Print Assumptions C06_truncation_preserves_rounding_F64.
-Print Assumptions C06_truncation_preserves_rounding_F32.
 Print Assumptions C06_far_digit_breaks_tie.
 Print Assumptions C06_nines_below_tie_round_down.
 Print Assumptions C06_trailing_zeros_irrelevant.
